@@ -7,6 +7,7 @@ import (
 	"time"
 
 	"github.com/IrineSistiana/mosdns/v5/pkg/upstream"
+	"github.com/IrineSistiana/mosdns/v5/pkg/upstream/doh"
 	"github.com/IrineSistiana/mosdns/v5/pkg/upstream/transport"
 	"github.com/miekg/dns"
 	"verif/sim/simnet"
@@ -77,6 +78,8 @@ type W1 struct {
 	// Outstanding[conn][wireID] = call index of a query received and not yet answered.
 	Outstanding map[int]map[uint16]int
 	CheckDupWid bool
+	// DoQDialFault is applied to the (fake) QUIC connection dial.
+	DoQDialFault func(ctx context.Context, nth int) error
 	MaxOutstanding map[int]int // per conn: maximum number of unanswered queries seen
 }
 
@@ -400,9 +403,11 @@ const (
 	TkPipelineStream           // transport.NewPipelineTransport over stream TraditionalDnsConn, small limits
 	TkPipelineDgram            // same over datagram
 	TkReuse                    // transport.NewReuseConnTransport direct
+	TkDoH                      // doh.Upstream over a fake http.RoundTripper
+	TkDoQ                      // PipelineTransport + QuicDnsConn over a fake quic.Connection
 )
 
-var tkNames = []string{"udp://", "tcp://", "tcp+pipeline://", "pipeline/stream", "pipeline/dgram", "reuse"}
+var tkNames = []string{"udp://", "tcp://", "tcp+pipeline://", "pipeline/stream", "pipeline/dgram", "reuse", "doh", "doq"}
 
 func (k TransportKind) String() string { return tkNames[k] }
 
@@ -453,6 +458,27 @@ func (w *W1) NewTransport(k TransportKind, o TransportOpts) upstream.Upstream {
 			},
 			MaxConcurrentQueryWhileDialing: o.MaxLazyQ,
 		})
+	case TkDoH:
+		u, err := doh.NewUpstream("https://doh.test/dns-query", &fakeRT{n: n}, nil)
+		if err != nil {
+			panic(err)
+		}
+		return dohUp{u}
+	case TkDoQ:
+		return transport.NewPipelineTransport(transport.PipelineOpts{
+			DialContext: func(ctx context.Context) (transport.DnsConn, error) {
+				if w.DoQDialFault != nil {
+					if err := w.DoQDialFault(ctx, 0); err != nil {
+						return nil, err
+					}
+				}
+				if err := ctx.Err(); err != nil {
+					return nil, err
+				}
+				return transport.NewQuicDnsConn(newFakeQuicConn(n, o.MaxCQ)), nil
+			},
+			MaxConcurrentQueryWhileDialing: o.MaxLazyQ,
+		})
 	case TkReuse:
 		return transport.NewReuseConnTransport(transport.ReuseConnOpts{
 			DialContext: func(ctx context.Context) (transport.NetConn, error) {
@@ -469,9 +495,9 @@ func (w *W1) NewTransport(k TransportKind, o TransportOpts) upstream.Upstream {
 }
 
 func (k TransportKind) stream() bool {
-	return k == TkTCP || k == TkTCPPipeline || k == TkPipelineStream || k == TkReuse
+	return k == TkTCP || k == TkTCPPipeline || k == TkPipelineStream || k == TkReuse || k == TkDoQ
 }
 
 func (k TransportKind) pipelined() bool {
-	return k != TkTCP && k != TkReuse
+	return k != TkTCP && k != TkReuse && k != TkDoH && k != TkDoQ
 }
